@@ -722,6 +722,16 @@ def _corpus():
                     if fn in DF_FNS:
                         d["pathpos"] = 0
                     out.append(mk(d, ("corpus", "D11", fn)))
+    # large inputs: more than 1000 paths / rows (chunked or position-vs-label row handling only shows there)
+    big = [["a", "n%02d" % i, "l%02d" % j] for i in range(35) for j in range(30)] + [["a", "n34", "l29", "deep"], ["a", "zz"]]
+    for fn in ("list", "dict", "pd", "pl", "adddict", "addpd", "addpl"):
+        its = [[p, False, False, ({"v": k} if (fn != "list" and k % 7 == 0) else {})] for k, p in enumerate(big)]
+        d = {"fn": fn, "sep": "/", "dup": True, "items": its}
+        if fn in ADD_FNS:
+            d.update(tsep="/", start=0, tree=["a", {}, [["n00", {}, []]]])
+        if fn in DF_FNS:
+            d["pathpos"] = 0
+        out.append(mk(d, ("corpus", "large", fn)))
     # suffix-related names deeper down
     t2 = ["a", {}, [["ab", {}, [["xa", {}, [["a b", {}, []]]]]], ["b", {}, [["ba", {}, []]]]]]
     for dup in (False, True):
